@@ -157,11 +157,11 @@ fn sweep_presentations() -> Vec<Presentation> {
     let mut v = Vec::new();
     for kf in KEY_FORMS {
         for (order, alpha_pos) in [(0u8, 255u8), (1, 0), (2, 1)] {
-            v.push(Presentation { struct_as: StructAs::Map, key_form: kf, alpha_pos, order, size_hint: alpha_pos != 0, alpha_present: true, unknown_key_at: None, strict_option: order == 2, unknown_key_kind: 0, honour_requested_len: false, limit_to_declared_fields: false });
+            v.push(Presentation { struct_as: StructAs::Map, key_form: kf, alpha_pos, order, size_hint: alpha_pos != 0, alpha_present: true, unknown_key_at: None, strict_option: order == 2, unknown_key_kind: 0, honour_requested_len: false, limit_to_declared_fields: false, binary: false });
         }
     }
     for hint in [true, false] {
-        v.push(Presentation { struct_as: StructAs::Seq, key_form: KeyForm::BorrowedStr, alpha_pos: 255, order: 0, size_hint: hint, alpha_present: true, unknown_key_at: None, strict_option: hint, unknown_key_kind: 0, honour_requested_len: !hint, limit_to_declared_fields: false });
+        v.push(Presentation { struct_as: StructAs::Seq, key_form: KeyForm::BorrowedStr, alpha_pos: 255, order: 0, size_hint: hint, alpha_present: true, unknown_key_at: None, strict_option: hint, unknown_key_kind: 0, honour_requested_len: !hint, limit_to_declared_fields: false, binary: false });
     }
     v
 }
@@ -373,6 +373,7 @@ fn gen_presentation(rng: &mut Rng, c: &CaseDesc) -> Presentation {
         unknown_key_kind: if rng.chance(1, 2) { 0 } else { 1 + rng.below(5) as u8 },
         honour_requested_len: rng.chance(1, 4),
         limit_to_declared_fields: false,
+        binary: rng.chance(1, 8),
     }
 }
 
@@ -600,6 +601,7 @@ impl World for C20 {
                         Presentation { strict_option: false, ..pres.clone() },
                         Presentation { unknown_key_kind: 0, ..pres.clone() },
                         Presentation { honour_requested_len: false, ..pres.clone() },
+                        Presentation { binary: false, ..pres.clone() },
                     ] {
                         if p != *pres {
                             out.push(with(Kind::Sim { pres: p, ser_fail: *ser_fail, de_fail: *de_fail }));
@@ -1136,6 +1138,10 @@ fn execute(c: &'static CaseDesc, inner: Option<&'static CaseDesc>, vals: &[f64],
             }
             // ---- serializing side
             let peer = Peer::new(ser_fail.map(|k| k as usize));
+            peer.human_readable.set(!pres.binary);
+            if pres.binary {
+                ctx.probe("binary-self-describing-peer");
+            }
             let rec = (c.ops.record)(vals, &peer);
             ctx.stats.steps += peer.calls.get() as u64;
             if peer.fired.get() {
@@ -1154,7 +1160,9 @@ fn execute(c: &'static CaseDesc, inner: Option<&'static CaseDesc>, vals: &[f64],
                 }
             };
             // Ok: complete and correct, whether or not the peer failed on the way
-            if judge_shape(ctx, c, inner, &tok, vals) {
+            // the shape clauses of the property speak about self-describing text formats: under a binary peer only
+            // the round trip and the missing-alpha rule are judged
+            if !pres.binary && judge_shape(ctx, c, inner, &tok, vals) {
                 return;
             }
             if peer.fired.get() {
@@ -1172,6 +1180,7 @@ fn execute(c: &'static CaseDesc, inner: Option<&'static CaseDesc>, vals: &[f64],
                 pres.alpha_present = true;
             }
             let peer = Peer::new(de_fail.map(|k| k as usize));
+            peer.human_readable.set(!pres.binary);
             // what the document says: where it carries no alpha, the only right answer (if it is accepted at all) is
             // full opacity — the outcome's own `==` must be taken against that, not against the alpha that was left out
             let mut said = vals.to_vec();
@@ -1258,6 +1267,10 @@ fn execute(c: &'static CaseDesc, inner: Option<&'static CaseDesc>, vals: &[f64],
                 expect[c.nvals - 1] = max_alpha(c);
             }
             let peer = Peer::new(de_fail.map(|k| k as usize));
+            peer.human_readable.set(!pres.binary);
+            if pres.binary {
+                ctx.probe("binary-self-describing-peer");
+            }
             let got = (opt.replay)(&tok, pres, &peer, &expect);
             ctx.stats.steps += peer.calls.get() as u64;
             if peer.fired.get() {
